@@ -103,6 +103,29 @@ def check(rep, tier):
         if hyp["inside"]:
             inside += 1
             oracle(rep, cfg, r, hyp)
+            if ri % 4 == 0:
+                # the same object run again after its cooling program was edited in place (same dt, same t_tot):
+                # the bounds refer to the program that is configured NOW
+                S = r["S"]
+                warm = min(cfg["prog"]["start"], cfg["prog"]["end"] + 25)
+                cfg2 = dict(cfg, prog=dict(cfg["prog"], end=warm, holds=[h for h in cfg["prog"]["holds"] if warm <= h["temp"]]))
+                try:
+                    with impl.quiet():
+                        S.opcond.cooling["end"] = warm
+                        S.opcond.holding = [dict(h) for h in cfg2["prog"]["holds"]] or None
+                        S._rng = fr.CountingRng(S._rng)
+                        S.run()
+                    r2 = dict(r, XT=np.array(S.X_T), XS=np.array(S.X_sigma), stats={k: np.array(v) for k, v in S.stats.items()},
+                              shelf=np.asarray(S.opcond.tempProfile(S.dt), dtype=float),
+                              hshelf=np.broadcast_to(np.asarray(S.H_shelf, dtype=float), (r["N"],)).copy())
+                    nv = len(rep.violations)
+                    if hypotheses(cfg2, r2)["inside"]:
+                        oracle(rep, cfg2, r2, hyp)
+                    for v in rep.violations[nv:]:
+                        v["key"] = "rerun-edited-program " + v["key"]; v["what"] = "second run() after editing the cooling program in place: " + v["what"]
+                    rep.count("reruns-after-edit")
+                except Exception as e:
+                    rep.violation("rerun-crash %s" % type(e).__name__, "re-run raises %r for %s" % (e, cfg2), dict(config=cfg2, error=repr(e)))
             if len(steps) < (10 if tier == "quick" else 60) and r["N"] <= 16:
                 n = r["nsteps"]
                 steps.append((cfg, fr.coq_step_case(r, sorted(rng.sample(range(n - 1), min(n - 1, 25))))))
